@@ -79,7 +79,7 @@ class MsvcBaseCompiler(BuildCommand):
                 flags.extend(self._include_dir(i.directory, pkgconf_mode))
             elif isinstance(i, opts.define):
                 prefix = '-D' if pkgconf_mode else '/D'
-                if i.value:
+                if i.value is not None:
                     flags.append(prefix + i.name + '=' + i.value)
                 else:
                     flags.append(prefix + i.name)
